@@ -449,7 +449,7 @@ func c14ScriptOne(a vh.Args, o *vh.Oracle, r *vh.Result, srv *c14ScriptSrv, op s
 	bodies := map[string][]byte{"200": data, "200bad": bad, "404": []byte("chunk not found"), "500": []byte("boom"), "401": []byte("Unauthorized")}
 	// pad so that the client never runs past the script
 	full := append([]string{}, script...)
-	for len(full) < budget+3 {
+	for len(full) < budget+3 || len(full) < 3 {
 		full = append(full, "200")
 	}
 	srv.set(full, bodies)
@@ -534,13 +534,17 @@ func c14ScriptOne(a vh.Args, o *vh.Oracle, r *vh.Result, srv *c14ScriptSrv, op s
 		}
 	}
 	var ans string
+	mb := strconv.Itoa(budget)
+	if budget < 0 { // ErrorRetry is an int; the model's budget is a natural number
+		mb = "0"
+	}
 	switch op {
 	case "get":
-		ans, err = o.Call("c14.getchunk", strconv.Itoa(budget), id.String(), strings.Join(toks, ","))
+		ans, err = o.Call("c14.getchunk", mb, id.String(), strings.Join(toks, ","))
 	case "has":
-		ans, err = o.Call("c14.haschunk", strconv.Itoa(budget), strings.Join(toks, ","))
+		ans, err = o.Call("c14.haschunk", mb, strings.Join(toks, ","))
 	default:
-		ans, err = o.Call("c14.storeobject", strconv.Itoa(budget), strings.Join(toks, ","))
+		ans, err = o.Call("c14.storeobject", mb, strings.Join(toks, ","))
 	}
 	if err != nil {
 		return err
@@ -580,6 +584,7 @@ func c14Scripts(a vh.Args, o *vh.Oracle, r *vh.Result, rng *vh.Rand) error {
 	}
 	ops := []string{"get", "has", "put"}
 	if a.Tier == "thorough" {
+		budgets = append(budgets, -1) // a negative --error-retry behaves like 0
 		// every sequence of length <= 3 over the base alphabet, every budget, every operation
 		var seqs [][]string
 		for _, x := range base {
